@@ -221,6 +221,156 @@ Section C03linexsweep.
   Proof. exact (gauss_seidel_x_frame ex ey ez sx sy sz eta_x eta_y eta_z zeta hx hy hz nu nx ny nz). Qed.
 End C03linexsweep.
 
+From V Require Import Proofs.GSLineY.
+
+Section C03liney.
+  Context {F : Type} {O : FOps F}.
+  Hypothesis Fth : field_theory F0 F1 Fadd Fmul Fsub Fopp Fdiv Finv (@eq F).
+  Hypothesis two_nz : (1 + 1)%F <> 0%F.
+  Variables (ex ey ez sx sy sz eta_x eta_y eta_z zeta : Z -> Z -> Z -> F).
+  Variables (hx hy hz : Z -> F).
+  Hypothesis hx_nz : forall i, hx i <> 0%F.
+  Hypothesis hy_nz : forall i, hy i <> 0%F.
+  Hypothesis hz_nz : forall i, hz i <> 0%F.
+  Variables (nu lhx nx lhy ny lhz nz ix iz : Z).
+  Notation LSYS := (gsy_sys ex ey ez sx sy sz eta_x eta_y eta_z zeta hx hy hz nu lhx nx lhy ny lhz nz ix iz).
+  Notation LOUT := (gsy_out ex ey ez sx sy sz eta_x eta_y eta_z zeta hx hy hz nu lhx nx lhy ny lhz nz ix iz).
+
+  (* consistency: for ANY values x of the line's unknowns, line-matrix * x -
+     line-rhs is (A e[x] - s) on the line's edges (every ny >= 2, both ends,
+     first / middle / next-to-last / last block) *)
+  Theorem line_y_system_is_the_residual_system :
+    2 <= ny -> 1 <= ix -> 1 <= iz -> PECy ex ez ny ix iz ->
+    forall (x : Z -> F) i, 0 <= i < 5*ny-4 ->
+      Fsub (bandmul (5*ny-4) (fst LSYS) x i) (snd LSYS i)
+      = line_resY ex ey ez sx sy sz eta_x eta_y eta_z zeta hx hy hz ny ix iz x (i / 5) (i mod 5).
+  Proof. exact (gsy_line_consistent Fth two_nz ex ey ez sx sy sz eta_x eta_y eta_z zeta hx hy hz
+                  hx_nz hy_nz hz_nz nu lhx nx lhy ny lhz nz ix iz). Qed.
+
+  (* after the step (assemble, banded solve, write back) every equation of the
+     line holds exactly on the returned field (LOUT in the order ex, ey, ez) *)
+  Theorem line_y_equations_hold_afterwards :
+    2 <= ny -> 1 <= ix -> 1 <= iz -> PECy ex ez ny ix iz ->
+    PivY ex ey ez sx sy sz eta_x eta_y eta_z zeta hx hy hz nu lhx nx lhy ny lhz nz ix iz ->
+    forall i, 0 <= i < 5*ny-4 ->
+      fld_resY sx sy sz eta_x eta_y eta_z zeta hx hy hz ix iz
+        (fst (fst LOUT)) (snd (fst LOUT)) (snd LOUT) (i / 5) (i mod 5) = 0%F.
+  Proof. exact (gsy_line_exact_out Fth two_nz ex ey ez sx sy sz eta_x eta_y eta_z zeta hx hy hz
+                  hx_nz hy_nz hz_nz nu lhx nx lhy ny lhz nz ix iz). Qed.
+End C03liney.
+
+Section C03lineysweep.
+  Context {F : Type} {O : FOps F}.
+  Hypothesis Fth : field_theory F0 F1 Fadd Fmul Fsub Fopp Fdiv Finv (@eq F).
+  Hypothesis two_nz : (1 + 1)%F <> 0%F.
+  Variables (ex ey ez sx sy sz eta_x eta_y eta_z zeta : Z -> Z -> Z -> F).
+  Variables (hx hy hz : Z -> F).
+  Hypothesis hx_nz : forall i, hx i <> 0%F.
+  Hypothesis hy_nz : forall i, hy i <> 0%F.
+  Hypothesis hz_nz : forall i, hz i <> 0%F.
+  Variables (nu nx ny nz : Z).
+
+  (* the whole kernel, every nu, forward and backward ordering: a field solving
+     every equation of every interior line is returned unchanged ... *)
+  Theorem line_y_smoother_leaves_exact_solution_unchanged :
+    2 <= ny ->
+    (forall ix iz, 1 <= ix < nx -> 1 <= iz < nz -> forall i, 0 <= i < 5*ny-4 ->
+       fld_resY sx sy sz eta_x eta_y eta_z zeta hx hy hz ix iz ex ey ez (i / 5) (i mod 5) = 0%F) ->
+    (forall ix iz, 1 <= ix < nx -> 1 <= iz < nz -> PECy ex ez ny ix iz) ->
+    (forall ix iz, 1 <= ix < nx -> 1 <= iz < nz ->
+       PivY ex ey ez sx sy sz eta_x eta_y eta_z zeta hx hy hz nu nx nx ny ny nz nz ix iz) ->
+    let r := gauss_seidel_y nx ny nz ex ey ez sx sy sz eta_x eta_y eta_z zeta hx hy hz nu in
+    forall i j l, fst (fst r) i j l = ex i j l /\ snd (fst r) i j l = ey i j l /\ snd r i j l = ez i j l.
+  Proof. exact (gauss_seidel_y_fixed_point Fth two_nz ex ey ez sx sy sz eta_x eta_y eta_z zeta hx hy hz
+                  hx_nz hy_nz hz_nz nu nx ny nz). Qed.
+
+  (* ... and no tangential boundary edge is ever written (any field, source, nu, shape) *)
+  Theorem line_y_smoother_never_writes_boundary :
+    let r := gauss_seidel_y nx ny nz ex ey ez sx sy sz eta_x eta_y eta_z zeta hx hy hz nu in
+    (forall i j l, (i < 0 \/ nx <= i \/ j <= 0 \/ ny <= j \/ l <= 0 \/ nz <= l) ->
+       fst (fst r) i j l = ex i j l) /\
+    (forall i j l, (i <= 0 \/ nx <= i \/ j < 0 \/ ny <= j \/ l <= 0 \/ nz <= l) ->
+       snd (fst r) i j l = ey i j l) /\
+    (forall i j l, (i <= 0 \/ nx <= i \/ j <= 0 \/ ny <= j \/ l < 0 \/ nz <= l) ->
+       snd r i j l = ez i j l).
+  Proof. exact (gauss_seidel_y_frame ex ey ez sx sy sz eta_x eta_y eta_z zeta hx hy hz nu nx ny nz). Qed.
+End C03lineysweep.
+
+From V Require Import Proofs.GSLineZ.
+
+Section C03linez.
+  Context {F : Type} {O : FOps F}.
+  Hypothesis Fth : field_theory F0 F1 Fadd Fmul Fsub Fopp Fdiv Finv (@eq F).
+  Hypothesis two_nz : (1 + 1)%F <> 0%F.
+  Variables (ex ey ez sx sy sz eta_x eta_y eta_z zeta : Z -> Z -> Z -> F).
+  Variables (hx hy hz : Z -> F).
+  Hypothesis hx_nz : forall i, hx i <> 0%F.
+  Hypothesis hy_nz : forall i, hy i <> 0%F.
+  Hypothesis hz_nz : forall i, hz i <> 0%F.
+  Variables (nu lhx nx lhy ny lhz nz ix iy : Z).
+  Notation LSYS := (gsz_sys ex ey ez sx sy sz eta_x eta_y eta_z zeta hx hy hz nu lhx nx lhy ny lhz nz ix iy).
+  Notation LOUT := (gsz_out ex ey ez sx sy sz eta_x eta_y eta_z zeta hx hy hz nu lhx nx lhy ny lhz nz ix iy).
+
+  (* consistency: for ANY values x of the line's unknowns, line-matrix * x -
+     line-rhs is (A e[x] - s) on the line's edges (every nz >= 2, both ends,
+     first / middle / next-to-last / last block) *)
+  Theorem line_z_system_is_the_residual_system :
+    2 <= nz -> 1 <= ix -> 1 <= iy -> PECz ex ey nz ix iy ->
+    forall (x : Z -> F) i, 0 <= i < 5*nz-4 ->
+      Fsub (bandmul (5*nz-4) (fst LSYS) x i) (snd LSYS i)
+      = line_resZ ex ey ez sx sy sz eta_x eta_y eta_z zeta hx hy hz nz ix iy x (i / 5) (i mod 5).
+  Proof. exact (gsz_line_consistent Fth two_nz ex ey ez sx sy sz eta_x eta_y eta_z zeta hx hy hz
+                  hx_nz hy_nz hz_nz nu lhx nx lhy ny lhz nz ix iy). Qed.
+
+  (* after the step (assemble, banded solve, write back) every equation of the
+     line holds exactly on the returned field (LOUT in the order ex, ey, ez) *)
+  Theorem line_z_equations_hold_afterwards :
+    2 <= nz -> 1 <= ix -> 1 <= iy -> PECz ex ey nz ix iy ->
+    PivZ ex ey ez sx sy sz eta_x eta_y eta_z zeta hx hy hz nu lhx nx lhy ny lhz nz ix iy ->
+    forall i, 0 <= i < 5*nz-4 ->
+      fld_resZ sx sy sz eta_x eta_y eta_z zeta hx hy hz ix iy
+        (fst (fst LOUT)) (snd (fst LOUT)) (snd LOUT) (i / 5) (i mod 5) = 0%F.
+  Proof. exact (gsz_line_exact_out Fth two_nz ex ey ez sx sy sz eta_x eta_y eta_z zeta hx hy hz
+                  hx_nz hy_nz hz_nz nu lhx nx lhy ny lhz nz ix iy). Qed.
+End C03linez.
+
+Section C03linezsweep.
+  Context {F : Type} {O : FOps F}.
+  Hypothesis Fth : field_theory F0 F1 Fadd Fmul Fsub Fopp Fdiv Finv (@eq F).
+  Hypothesis two_nz : (1 + 1)%F <> 0%F.
+  Variables (ex ey ez sx sy sz eta_x eta_y eta_z zeta : Z -> Z -> Z -> F).
+  Variables (hx hy hz : Z -> F).
+  Hypothesis hx_nz : forall i, hx i <> 0%F.
+  Hypothesis hy_nz : forall i, hy i <> 0%F.
+  Hypothesis hz_nz : forall i, hz i <> 0%F.
+  Variables (nu nx ny nz : Z).
+
+  (* the whole kernel, every nu, forward and backward ordering: a field solving
+     every equation of every interior line is returned unchanged ... *)
+  Theorem line_z_smoother_leaves_exact_solution_unchanged :
+    2 <= nz ->
+    (forall ix iy, 1 <= ix < nx -> 1 <= iy < ny -> forall i, 0 <= i < 5*nz-4 ->
+       fld_resZ sx sy sz eta_x eta_y eta_z zeta hx hy hz ix iy ex ey ez (i / 5) (i mod 5) = 0%F) ->
+    (forall ix iy, 1 <= ix < nx -> 1 <= iy < ny -> PECz ex ey nz ix iy) ->
+    (forall ix iy, 1 <= ix < nx -> 1 <= iy < ny ->
+       PivZ ex ey ez sx sy sz eta_x eta_y eta_z zeta hx hy hz nu nx nx ny ny nz nz ix iy) ->
+    let r := gauss_seidel_z nx ny nz ex ey ez sx sy sz eta_x eta_y eta_z zeta hx hy hz nu in
+    forall i j l, fst (fst r) i j l = ex i j l /\ snd (fst r) i j l = ey i j l /\ snd r i j l = ez i j l.
+  Proof. exact (gauss_seidel_z_fixed_point Fth two_nz ex ey ez sx sy sz eta_x eta_y eta_z zeta hx hy hz
+                  hx_nz hy_nz hz_nz nu nx ny nz). Qed.
+
+  (* ... and no tangential boundary edge is ever written (any field, source, nu, shape) *)
+  Theorem line_z_smoother_never_writes_boundary :
+    let r := gauss_seidel_z nx ny nz ex ey ez sx sy sz eta_x eta_y eta_z zeta hx hy hz nu in
+    (forall i j l, (i < 0 \/ nx <= i \/ j <= 0 \/ ny <= j \/ l <= 0 \/ nz <= l) ->
+       fst (fst r) i j l = ex i j l) /\
+    (forall i j l, (i <= 0 \/ nx <= i \/ j < 0 \/ ny <= j \/ l <= 0 \/ nz <= l) ->
+       snd (fst r) i j l = ey i j l) /\
+    (forall i j l, (i <= 0 \/ nx <= i \/ j <= 0 \/ ny <= j \/ l < 0 \/ nz <= l) ->
+       snd r i j l = ez i j l).
+  Proof. exact (gauss_seidel_z_frame ex ey ez sx sy sz eta_x eta_y eta_z zeta hx hy hz nu nx ny nz). Qed.
+End C03linezsweep.
+
 Print Assumptions solve_correct_banded.
 Print Assumptions solve_unique_banded.
 Print Assumptions solve_is_linear_in_rhs.
@@ -235,3 +385,11 @@ Print Assumptions line_x_system_is_the_residual_system.
 Print Assumptions line_x_equations_hold_afterwards.
 Print Assumptions line_x_smoother_leaves_exact_solution_unchanged.
 Print Assumptions line_x_smoother_never_writes_boundary.
+Print Assumptions line_y_system_is_the_residual_system.
+Print Assumptions line_y_equations_hold_afterwards.
+Print Assumptions line_y_smoother_leaves_exact_solution_unchanged.
+Print Assumptions line_y_smoother_never_writes_boundary.
+Print Assumptions line_z_system_is_the_residual_system.
+Print Assumptions line_z_equations_hold_afterwards.
+Print Assumptions line_z_smoother_leaves_exact_solution_unchanged.
+Print Assumptions line_z_smoother_never_writes_boundary.
